@@ -1456,6 +1456,8 @@ class PE:
         rhs = self.eval(st.value, env)
         if isinstance(cur, Arr):
             # in-place: write through the existing buffer (aliases observe the change)
+            if isinstance(st.op, (ast.Add, ast.Sub)) and _all_exact_zero(rhs) and _broadcastable(rhs, cur):
+                return  # adding an exact zero leaves every element unchanged
             new = self.binop(st.op, cur, rhs)
             if isinstance(new, Top):
                 for idx in cur.indices():
@@ -1573,6 +1575,20 @@ class _Iter:
         r = self.items[self.pos:]
         self.pos = len(self.items)
         return r
+
+
+def _all_exact_zero(x):
+    if isinstance(x, Arr):
+        return all(isinstance(e, (int, Fraction)) and not isinstance(e, bool) and e == 0 for e in x.flat())
+    return isinstance(x, (int, Fraction)) and not isinstance(x, bool) and x == 0
+
+
+def _broadcastable(rhs, cur):
+    if not isinstance(rhs, Arr):
+        return True
+    if rhs.ndim > cur.ndim:
+        return False
+    return all(a == b or a == 1 for a, b in zip(reversed(rhs.shape), reversed(cur.shape)))
 
 
 _GEN_CACHE: dict = {}
